@@ -216,7 +216,7 @@ func TestDecodeString(t *testing.T) {
 		{`'\x4'`, "", true},
 		{`'a\Nb'`, "ab", false},
 		{`'\%\_\d\.\w\Z\('`, `\%\_\d\.\w\Z\(`, false}, // unknown escapes keep the backslash
-		{"'\\\n'", "\n", false},                        // backslash before a raw control byte is dropped
+		{"'\\\n'", "\n", false},                       // backslash before a raw control byte is dropped
 		{"'\\\x7f'", "\\\x7f", false},
 		{"'a\nb\x00c'", "a\nb\x00c", false},
 		{"'\xff\xfe'", "\xff\xfe", false},
@@ -243,8 +243,8 @@ func TestDecodeString(t *testing.T) {
 	}
 	// heredoc and unicode quotes: no escapes
 	for lit, want := range map[string]string{
-		"$$a\\'b$$":                    `a\'b`,
-		"$x$a$$b$x$":                   "a$$b",
+		"$$a\\'b$$":                     `a\'b`,
+		"$x$a$$b$x$":                    "a$$b",
 		"\xe2\x80\x98a\\nb\xe2\x80\x99": `a\nb`,
 	} {
 		toks := Tokenize(lit)
